@@ -1310,7 +1310,13 @@ class BaseImage(metaclass=ImageMeta):
 
     def _close_image(self, img: PIL.Image.Image) -> None:
         """Closes the given PIL image instance if it isn't the instance' source."""
-        if img is not self._source:
+        try:
+            is_source = img is self._source
+        except AttributeError:  # The instance has been finalized
+            # A PIL image source must never be closed; any other kind of source is
+            # never a PIL image instance.
+            is_source = self._source_type is ImageSource.PIL_IMAGE
+        if not is_source:
             img.close()
 
     def _display_animated(
